@@ -158,10 +158,14 @@ def check(case, ctx):
                     ctx.fail('complementary-sum', total + 2 * refdata.PROTON, fb.mass + fy.mass, cleavage=i, text=s,
                              monoisotopic=mono, via=via)
         # the same series through the mass calculator on the fragment's own sequence
-        if not has_term and mono:
+        if mono and not P0.get('labile'):
             for t in ALL:
+                if has_term and t not in TERMINAL:
+                    continue       # internal / immonium clauses: residue modifications only (see ASSUMPTIONS)
                 for z in (1, 3):
-                    exp = span_mass(P, 0, n, mono) + refdata.comp_mass(refmass.ION_OFFSET[t], mono) + z * refdata.PROTON
+                    # the full-length ion contains both termini
+                    exp = span_mass(P, 0, n, mono) + nterm[mi] + cterm[mi] + \
+                        refdata.comp_mass(refmass.ION_OFFSET[t], mono) + z * refdata.PROTON
                     st, got = lib.call(p.mass, s, charge=z, ion_type=t, monoisotopic=mono)
                     ctx.evals += 1
                     nions += 1
